@@ -3,34 +3,17 @@ package main
 import (
 	"fmt"
 	"os"
-	"time"
 
 	"github.com/sirupsen/logrus"
 	"verif/harness/hopkit"
-	"verif/harness/simwire"
 )
 
 func main() {
 	logrus.SetOutput(os.Stderr)
 	logrus.SetLevel(logrus.DebugLevel)
 	p := hopkit.NewPKI()
-	w := hopkit.NewWorld()
 	sid := p.Issue("valid", "a.example")
 	cid := p.Issue("selfsigned", "client")
-	kem := hopkit.NewKEM()
-	sa := simwire.Addr("10.0.0.1", 77)
-	s := w.NewServer(sa, hopkit.SrvOpt{Ident: sid, KEM: kem, ClientVerify: p.Policy("authkeys", "", cid.Key.Public)})
-	c := w.NewClient(simwire.Addr("10.0.0.2", 1000), sa, hopkit.CliOpt{Ident: cid, Verify: p.Policy("store", "a.example"), ServerKEM: &kem.Public})
-	c.Start()
-	c.WaitStep()
-	out := w.Net.TakeFrom(c.EP)
-	for _, d := range out {
-		fmt.Println("c->s", hopkit.TypeName(d.Data), len(d.Data))
-		s.EP.Deliver(d.Data, d.From, hopkit.StepTimeout)
-	}
-	for _, d := range w.Net.TakeFrom(s.EP) {
-		fmt.Println("s->c", hopkit.TypeName(d.Data), len(d.Data), d.To)
-	}
-	_ = time.Now
-	w.Close()
+	pr, err := hopkit.NewPair(p, sid, cid, true, 3)
+	fmt.Println(pr != nil, err)
 }
